@@ -85,8 +85,8 @@ prim_any!(prim_reason_unsuback_any, UnsubackReason, 2, 4);
 #[kani::unwind(6)]
 pub(crate) fn prim_u16_exact() {
     let b = any_bytes::<4>(0);
-    let real = u16::try_decode(b);
-    let model = u16_ref(b);
+    let real = u16::try_decode(b.clone());
+    let model = u16_ref(b.clone());
     match (&real, &model) {
         (Ok(x), Ok(y)) => {
             assert!(x == y, "u16 decoder returns the big-endian value of the first two bytes");
@@ -105,7 +105,7 @@ pub(crate) fn prim_u16_exact() {
 #[kani::unwind(8)]
 pub(crate) fn prim_u32_exact() {
     let b = any_bytes::<6>(0);
-    let real = u32::try_decode(b);
+    let real = u32::try_decode(b.clone());
     if b.len() < 4 {
         assert!(real.is_err(), "u32 decoder refuses fewer than four bytes");
         kani::cover!(true, "short input refused");
@@ -171,25 +171,25 @@ reason_exact!(reason_auth_exact, AuthReason, [0x00, 0x18, 0x19]);
 #[kani::unwind(6)]
 pub(crate) fn prim_checked_exact() {
     let b = any_bytes::<4>(4);
-    match bool::try_decode(b) {
+    match bool::try_decode(b.clone()) {
         Ok(v) => assert!(b[0] <= 1 && v == (b[0] == 1), "bool value"),
         Err(_) => assert!(b[0] > 1, "bool refuses only values above 1"),
     }
-    match QoS::try_decode(b) {
+    match QoS::try_decode(b.clone()) {
         Ok(v) => assert!(b[0] <= 2 && v as u8 == b[0], "QoS value"),
         Err(_) => assert!(b[0] > 2, "QoS refuses only 3 and above"),
     }
-    match <NonZero<u8>>::try_decode(b) {
+    match <NonZero<u8>>::try_decode(b.clone()) {
         Ok(v) => assert!(v.get() == b[0] && b[0] != 0, "non-zero byte"),
         Err(_) => assert!(b[0] == 0, "only zero refused"),
     }
     let w16 = ((b[0] as u16) << 8) | b[1] as u16;
-    match <NonZero<u16>>::try_decode(b) {
+    match <NonZero<u16>>::try_decode(b.clone()) {
         Ok(v) => assert!(v.get() == w16 && w16 != 0, "non-zero two byte integer"),
         Err(_) => assert!(w16 == 0, "only zero refused"),
     }
     let w32 = ((b[0] as u32) << 24) | ((b[1] as u32) << 16) | ((b[2] as u32) << 8) | b[3] as u32;
-    match <NonZero<u32>>::try_decode(b) {
+    match <NonZero<u32>>::try_decode(b.clone()) {
         Ok(v) => assert!(v.get() == w32 && w32 != 0, "non-zero four byte integer"),
         Err(_) => assert!(w32 == 0, "only zero refused"),
     }
